@@ -381,3 +381,42 @@ func StripDefaults(defs []meta.Definition, want, got *Tree) {
 		}
 	}
 }
+
+// StripZeros removes from got every leaf holding the zero value of its Go
+// representation (0, false, "") that want does not hold. Go structs cannot keep
+// a scalar field unset, so reads of struct-backed stores may report them.
+func StripZeros(defs []meta.Definition, want, got *Tree) {
+	for _, d := range FlatDefs(defs) {
+		id := d.Ident()
+		switch x := d.(type) {
+		case *meta.List:
+			wl, wok := want.Lists[id]
+			gl, gok := got.Lists[id]
+			if !wok || !gok {
+				continue
+			}
+			wantBy := map[string]*Tree{}
+			for _, e := range wl.Entries {
+				wantBy[KeyOf(x, e)] = e
+			}
+			for _, e := range gl.Entries {
+				if we, ok := wantBy[KeyOf(x, e)]; ok {
+					StripZeros(x.DataDefinitions(), we, e)
+				}
+			}
+		case meta.HasDataDefinitions:
+			wc, wok := want.Conts[id]
+			gc, gok := got.Conts[id]
+			if wok && gok {
+				StripZeros(x.DataDefinitions(), wc, gc)
+			}
+		case meta.Leafable:
+			if _, set := want.Leaves[id]; set {
+				continue
+			}
+			if g, ok := got.Leaves[id]; ok && (g.Canon == "0" || g.Canon == "false" || g.Canon == `""`) {
+				delete(got.Leaves, id)
+			}
+		}
+	}
+}
